@@ -38,8 +38,10 @@ def step? : Sexp → Option Step
   | .atom "clear" => some .clearJunk
   | _ => none
 
+/-- an optional third element says on which reactor the harness ran the history (`real`); the model is the same -/
 def input? : Sexp → Option Input
   | .list [d, steps] => do some { debug := ← bool? d, steps := ← list? step? steps }
+  | .list [d, steps, .atom _] => do some { debug := ← bool? d, steps := ← list? step? steps }
   | _ => none
 
 def res? : Sexp → Option Res
